@@ -163,6 +163,11 @@ CASES = [
 
     def _check_bounds(self):
 """)]),
+    ("same", "T2 = notes/refactors/T2.diff (renamed loop variable and one conditional expression in "
+             "_type_checker, early returns, De Morgan, hoisted locals, swapped branches, conditional expressions, "
+             "merged ifs, a hoisted conjunct of the conflict checks, `if is_duration: return`, the date defaults "
+             "extracted into the mutator _set_date_defaults, ...)",
+     [("PATCH", "/verif/notes/refactors/T2.diff")]),
     ("break", "S1 seeded C09-24h-second-unchecked", [("PATCH", S % "C09-24h-second-unchecked")]),
     ("break", "S2 seeded C09-year-zero-falsy-bounds", [("PATCH", S % "C09-year-zero-falsy-bounds")]),
     ("break", "S3 seeded C09-max-days-360-truncated (Calendar.set_mode)", [("PATCH", S % "C09-max-days-360-truncated")]),
@@ -218,6 +223,16 @@ CASES = [
         ("""        raise BadInputError(BadInputError.OUT_OF_BOUNDS, name, value)
 """, """        raise BadInputError(BadInputError.OUT_OF_RANGE, name, value)
 """)]),
+    ("break", "B11 _type_checker lacks the `any(isinstance ...)` acceptance (a float time field would raise)", [
+        ("""        if any(isinstance(value, type_) for type_ in allowed_types):
+            continue
+""", "")]),
+    ("break", "B12 _type_checker looks at the value itself (refuses negative numbers)", [
+        ("""        if allowed_types and isinstance(value, allowed_types[0]):
+            continue
+""", """        if allowed_types and isinstance(value, allowed_types[0]) and value >= 0:
+            continue
+""")]),
     ("break", "B10 _type_checker no longer allows a float hour_of_day", [
         ("""            (hour_of_day, "hour_of_day", None, int, float),
 """, """            (hour_of_day, "hour_of_day", None, int),
@@ -267,6 +282,7 @@ def run(kind, name, edits):
     c09 = os.path.join(scoq, "Props", "C09Code.v")
     if not os.path.exists(c09):
         shutil.copy(os.environ["G7_C09CODE"], c09)
+    # translate.py calls gen_code7 itself when it is hooked; running it first is harmless
     env = dict(os.environ, ISO_REPO=REPO_SCRATCH)
     env.pop("VERIF_GEN_OUT", None)
     live = {f: open(os.path.join(scoq, "gen", f)).read() for f in os.listdir(os.path.join(scoq, "gen"))
